@@ -808,8 +808,13 @@ pub fn run_n<const N: usize>(src: &dyn InnerSource, seed: u64, budget: &Budget, 
     muts.retain(|m| m.bytes != proof);
 
     let outcomes: Vec<Outcome> = muts.par_iter().map(|m| a.verify(&instances, &m.bytes).0).collect();
-    for (m, o) in muts.iter().zip(outcomes) {
+    for (j, (m, o)) in muts.iter().zip(outcomes).enumerate() {
         let class = m.kind.clone();
+        if j % 197 == 5 {
+            rep.sample(json!({"part": "aggregator", "config": tag, "mutation": m.kind, "element": m.element,
+                "element_kind": m.element.map(|i| els[i].kind.to_string()), "section": sec_name(m.section),
+                "mutated_len": m.bytes.len(), "honest_len": proof.len(), "outcome": format!("{o:?}").chars().take(60).collect::<String>()}));
+        }
         let el = m.element.map(|i| format!("element {i} ({}) of {}", els[i].kind, els.len())).unwrap_or_default();
         rep.count(&format!("agg.mutations[section {}]", sec_name(m.section)));
         rep.nontrivial(&(tag.clone(), m.kind.clone(), m.element));
